@@ -504,6 +504,8 @@ def run(cx, rep):
     explicit_before_star_rule(cx, rep, "C09.16")
     # ---------------------------------------------------------------- C09.17
     star_shadowing_rule(cx, rep, "C09.17")
+    # ---------------------------------------------------------------- C09.18
+    type_only_marker_rule(cx, rep, "C09.18")
     # ---------------------------------------------------------------- C09.15
     rep.rule("C09.15", "an answer of the host (module resolution, file lookup) is remembered under a key that carries every argument of the query")
     hits = memo_key_hits(cx.rs)
@@ -649,7 +651,7 @@ def star_hop_rule(cx, rep, rid):
         if not back and any(c.indirect or ((c.path or "").startswith(("std::ops::Fn::call", "std::ops::FnMut::call_mut", "std::ops::FnOnce::call_once")) and not c.resolved) for c in f.calls):
             # the walker is handed the question as a function value (`lookup: impl Fn(&Exports, ..)`): the recursion
             # closes through its callers - every caller must lead back to itself (its closure asks the target again)
-            callers = [h for h in F.fns if g in F.edges.get(h, ()) and F.fns[h].kind != "Closure"]
+            callers = [h for h in F.fns if g in F.edges.get(h, ())]      # closures included (`own.or_else(|| self.walk(..))`)
 
             def loops(h):
                 seen2, work2 = set(), list(F.edges.get(h, ()))
@@ -1150,6 +1152,54 @@ def explicit_before_star_rule(cx, rep, rid):
                    g, "s" if len(late) > 1 else "", ", ".join(sorted({self_field(x["recv"])["name"] for x in late}))),
                "%s:%s" % (f.file, late[0].get("line") if late else f.line), sample={"fn": g, "own_lookups": len(own), "after_the_star_walk": len(late)})
     rep.floor(rid, "export lookups that walk the star targets", n, 1)
+
+
+# ---------------------------------------------------------------------------------------------------- C09.18
+def type_only_marker_hits(F, select):
+    """reads of a `type_only` / `is_type_only` field: in a struct pattern that binds it, or as a field expression"""
+    hits = []
+    for g, t in sorted(F.hir.items()):
+        f = F.fns.get(g)
+        if f is None or not select(f):
+            continue
+        for x in walk(t["body"]):
+            if x["k"] == "P.Struct":
+                for fl in x.get("fields", []):
+                    if fl["name"] in ("type_only", "is_type_only") and fl["pat"].get("k") != "P.Wild":
+                        hits.append((g, f, fl["name"], x["line"]))
+            if x["k"] == "Field" and x.get("name") in ("type_only", "is_type_only"):
+                hits.append((g, f, x["name"], x["line"]))
+        for p_ in t.get("params", []):
+            for x in walk(p_):
+                if x["k"] == "P.Struct":
+                    for fl in x.get("fields", []):
+                        if fl["name"] in ("type_only", "is_type_only") and fl["pat"].get("k") != "P.Wild":
+                            hits.append((g, f, fl["name"], x["line"]))
+    return hits
+
+
+def type_only_marker_rule(cx, rep, rid):
+    """`export type { A }`, `export { type A }`, `import type { A }` mark a name as usable in type positions only - and
+    `typeof A` is a type position: the VALUE meaning of A stays reachable for type queries, which is all this compiler
+    ever does with values.  Moving the declarations of a program into modules must not change what `typeof A` is, so a
+    binder that files a type-only export under the type table alone (or skips its value lookups) turns a program that
+    compiles as one file into `cannot resolve value` - or silently binds `A` to a star export of the same name - when
+    it is split.  Decided: no function of the binder (swc_tools) reads the `type_only` / `is_type_only` markers of the
+    syntax tree; a positive control in the canary crate keeps the matcher alive."""
+    F = cx.rs
+    rep.rule(rid, "the type-only markers of import / export lists take no part in binding (`typeof` may name a type-only export)")
+    hits = type_only_marker_hits(F, lambda f: "/src/swc_tools/" in (f.file or ""))
+    rep.ob(rid, "scan", True, sample={"reads_of_type_only_markers_in_the_binder": len(hits)})
+    for g, f, name, line in hits:
+        rep.ob(rid, "%s/%s" % (f.name, name), False,
+               "%s reads the `%s` marker of an import / export list: a name exported type-only keeps its value meaning for `typeof`; binding it as a type only makes `typeof A` unresolvable (or resolves it to a star export of the same name) once the declaration lives in another module, although the single-file program compiles" % (g, name),
+               "%s:%s" % (f.file, line), sample={"fn": f.name, "field": name})
+    if cx.canary is not None:
+        names = {h[1].name for h in type_only_marker_hits(cx.canary, lambda f: True)}
+        rep.ob(rid, "control/canary-type-only", "bind_reads_type_only_marker" in names and "bind_ignores_type_only_marker" not in names,
+               "positive control: the canary function that branches on `is_type_only` must be reported and its twin must not (reported: %s)" % sorted(names), "canary/rs/src/lib.rs")
+    else:
+        rep.anchor_missing(rid, "canary crate facts")
 
 
 # ---------------------------------------------------------------------------------------------------- C09.17
